@@ -182,7 +182,7 @@ def corpus():
 
 
 def generate(rng, tier):
-    n = 6000 if tier == "quick" else 200000
+    n = 15000 if tier == "quick" else 200000
     return [gen_one(rng) for _ in range(n)]
 
 
